@@ -13,24 +13,25 @@ Definition opt_eqb {A} (e : A -> A -> bool) (x y : option A) : bool :=
 Definition err_eqb (a b : err) : bool :=
   match a, b with
   | EInj, EInj | ENotFound, ENotFound | EExists, EExists | EMissing, EMissing
-  | EDupKey, EDupKey | EClosed, EClosed | EFull, EFull => true
+  | EDupKey, EDupKey | EClosed, EClosed | EFull, EFull | ECtx, ECtx => true
   | _, _ => false end.
+Definition oz_eqb := opt_eqb Z.eqb.              (* values: an integer or nil *)
+Definition ov_eqb := opt_eqb oz_eqb.             (* cache answers: miss, or hit with a value *)
 Definition sres_eqb (a b : sres) : bool :=
-  match a, b with SOk x, SOk y => x =? y | SErr x, SErr y => err_eqb x y | _, _ => false end.
+  match a, b with SOk x, SOk y => oz_eqb x y | SErr x, SErr y => err_eqb x y | _, _ => false end.
 Definition res_eqb (a b : res) : bool :=
   match a, b with
-  | ROk x, ROk y => x =? y | RNil, RNil => true | RErr x, RErr y => err_eqb x y
+  | ROk x, ROk y => oz_eqb x y | RNil, RNil => true | RErr x, RErr y => err_eqb x y
   | RPanic, RPanic => true | RHang, RHang => true | _, _ => false end.
-Definition oz_eqb := opt_eqb Z.eqb.
 Definition event_eqb (a b : event) : bool :=
   match a, b with
-  | EvGet k r, EvGet k' r' => (k =? k') && oz_eqb r r'
-  | EvPeek k r, EvPeek k' r' => (k =? k') && oz_eqb r r'
-  | EvSet k v, EvSet k' v' => (k =? k') && (v =? v')
+  | EvGet k r, EvGet k' r' => (k =? k') && ov_eqb r r'
+  | EvPeek k r, EvPeek k' r' => (k =? k') && ov_eqb r r'
+  | EvSet k v, EvSet k' v' => (k =? k') && oz_eqb v v'
   | EvDel k, EvDel k' => k =? k'
   | EvLoad k r, EvLoad k' r' => (k =? k') && sres_eqb r r'
   | EvAdd k d r, EvAdd k' d' r' => (k =? k') && (d =? d') && sres_eqb r r'
-  | EvUpd k d p r, EvUpd k' d' p' r' => (k =? k') && (d =? d') && (p =? p') && sres_eqb r r'
+  | EvUpd k d p r, EvUpd k' d' p' r' => (k =? k') && (d =? d') && oz_eqb p p' && sres_eqb r r'
   | EvUpsert k d p r, EvUpsert k' d' p' r' => (k =? k') && (d =? d') && oz_eqb p p' && sres_eqb r r'
   | EvDelete k r, EvDelete k' r' => (k =? k') && opt_eqb err_eqb r r'
   | _, _ => false end.
@@ -48,10 +49,12 @@ Lemma zeqb_eq a b : (a =? b) = true -> a = b.
 Proof. apply Z.eqb_eq. Qed.
 Lemma oz_eqb_eq a b : oz_eqb a b = true -> a = b.
 Proof. apply opt_eqb_eq. exact zeqb_eq. Qed.
+Lemma ov_eqb_eq a b : ov_eqb a b = true -> a = b.
+Proof. apply opt_eqb_eq. exact oz_eqb_eq. Qed.
 Lemma sres_eqb_eq a b : sres_eqb a b = true -> a = b.
-Proof. destruct a, b; cbn; try discriminate; intros H; f_equal; [now apply Z.eqb_eq | now apply err_eqb_eq]. Qed.
+Proof. destruct a, b; cbn; try discriminate; intros H; f_equal; [now apply oz_eqb_eq | now apply err_eqb_eq]. Qed.
 Lemma res_eqb_eq a b : res_eqb a b = true -> a = b.
-Proof. destruct a, b; cbn; try discriminate; intros H; f_equal; try reflexivity; [now apply Z.eqb_eq | now apply err_eqb_eq]. Qed.
+Proof. destruct a, b; cbn; try discriminate; intros H; f_equal; try reflexivity; [now apply oz_eqb_eq | now apply err_eqb_eq]. Qed.
 
 Ltac split_andb H :=
   repeat match type of H with
@@ -67,6 +70,7 @@ Proof.
     repeat match goal with
     | H : (_ =? _) = true |- _ => apply Z.eqb_eq in H
     | H : oz_eqb _ _ = true |- _ => apply oz_eqb_eq in H
+    | H : ov_eqb _ _ = true |- _ => apply ov_eqb_eq in H
     | H : sres_eqb _ _ = true |- _ => apply sres_eqb_eq in H
     | H : opt_eqb err_eqb _ _ = true |- _ => apply (opt_eqb_eq err_eqb err_eqb_eq) in H
     end; subst; reflexivity.
@@ -84,29 +88,40 @@ Record sobs := mkObs {
   ob_events : list event;          (* the projected event list of the operation, in order *)
   ob_res : res;                    (* what the caller got *)
   ob_worker : option Z;            (* index of the cache that served the operation's cache calls (ObsAll only) *)
-  ob_cache : list (option Z);      (* after the operation, key by key of the universe: the group's cache (ObsAll only) *)
-  ob_store : list (option Z)       (* after the operation, key by key of the universe: the store *)
+  ob_cache : list (option val);    (* after the operation, key by key of the universe: the group's cache (ObsAll only) *)
+  ob_store : list val              (* after the operation, key by key of the universe: the store (nil = no row) *)
 }.
-Record sstep := mkStep { st_op : op; st_faults : list fault; st_obs : sobs }.
+(* st_cancel: the context of this call was cancelled by one of its callbacks.  The handlers do not look at the context
+   (as coded), so cache, store and callbacks are those of an uncancelled call; AsyncC.R selects between ctx.Done() and
+   the result channel, so the caller receives either its result or the context's error *)
+Record sstep := mkStep { st_op : op; st_faults : list fault; st_cancel : bool; st_obs : sobs }.
 
-Definition sobs_eqb (a b : sobs) : bool :=
-  list_eqb event_eqb (ob_events a) (ob_events b) && res_eqb (ob_res a) (ob_res b)
-  && oz_eqb (ob_worker a) (ob_worker b)
-  && list_eqb oz_eqb (ob_cache a) (ob_cache b) && list_eqb oz_eqb (ob_store a) (ob_store b).
-Lemma sobs_eqb_eq a b : sobs_eqb a b = true -> a = b.
+Definition is_ctx (r : res) : bool := match r with RErr ECtx => true | _ => false end.
+
+Definition sobs_match (cancel : bool) (m o : sobs) : bool :=
+  list_eqb event_eqb (ob_events m) (ob_events o)
+  && (res_eqb (ob_res m) (ob_res o) || (cancel && is_ctx (ob_res o)))
+  && oz_eqb (ob_worker m) (ob_worker o)
+  && list_eqb ov_eqb (ob_cache m) (ob_cache o) && list_eqb oz_eqb (ob_store m) (ob_store o).
+Lemma sobs_match_eq cancel m o : sobs_match cancel m o = true ->
+  ob_events o = ob_events m /\ ob_worker o = ob_worker m /\ ob_cache o = ob_cache m /\ ob_store o = ob_store m
+  /\ (ob_res o = ob_res m \/ ob_res o = RErr ECtx).
 Proof.
-  destruct a, b; unfold sobs_eqb; cbn [ob_events ob_res ob_worker ob_cache ob_store]. intros H.
+  unfold sobs_match. intros H.
   apply andb_prop in H as [H H4]. apply andb_prop in H as [H H3]. apply andb_prop in H as [H H5]. apply andb_prop in H as [H1 H2].
-  apply (list_eqb_eq _ event_eqb_eq) in H1. apply res_eqb_eq in H2. apply oz_eqb_eq in H5.
-  apply (list_eqb_eq _ oz_eqb_eq) in H3. apply (list_eqb_eq _ oz_eqb_eq) in H4. subst. reflexivity.
+  apply (list_eqb_eq _ event_eqb_eq) in H1. apply oz_eqb_eq in H5.
+  apply (list_eqb_eq _ ov_eqb_eq) in H3. apply (list_eqb_eq _ oz_eqb_eq) in H4.
+  repeat (split; [congruence|]).
+  apply orb_prop in H2 as [H2|H2]; [left; apply res_eqb_eq in H2; congruence|].
+  right. apply andb_prop in H2 as [_ H2]. destruct (ob_res o) as [| |e| |]; try discriminate. destruct e; try discriminate. reflexivity.
 Qed.
 
-Definition snap_cache (l : obs_level) (c : gcfg) (g : grp) (univ : list Z) : list (option Z) :=
+Definition snap_cache (l : obs_level) (c : gcfg) (g : grp) (univ : list Z) : list (option val) :=
   match l with ObsStore => [] | ObsAll => map (cache_at c g) univ end.
 Definition is_cache_ev (e : event) : bool := negb (is_store_ev e).
 Definition snap_worker (l : obs_level) (w : Z) (evs : list event) : option Z :=
   match l with ObsStore => None | ObsAll => if existsb is_cache_ev evs then Some w else None end.
-Definition snap_store (c : gcfg) (g : grp) (univ : list Z) : list (option Z) := map (store_at c g) univ.
+Definition snap_store (c : gcfg) (g : grp) (univ : list Z) : list val := map (store_at c g) univ.
 
 (* the model's observation of one operation *)
 Definition model_step (l : obs_level) (c : gcfg) (univ : list Z) (g : grp) (o : op) (fs : list fault) : grp * sobs :=
@@ -118,7 +133,7 @@ Fixpoint seq_accept (l : obs_level) (c : gcfg) (univ : list Z) (g : grp) (steps 
   | [] => true
   | s :: rest => let '(g', o) := model_step l c univ g (st_op s) (st_faults s) in
                  existsb (Z.eqb (key_of (st_op s))) univ      (* a well-formed case: the key is one of the universe *)
-                 && sobs_eqb o (st_obs s) && seq_accept l c univ g' rest
+                 && sobs_match (st_cancel s) o (st_obs s) && seq_accept l c univ g' rest
   end.
 
 (* ------------------------------------------------------------------ the monitor for sequential histories:
@@ -129,11 +144,11 @@ Definition at_key {A} (univ : list Z) (snap : list (option A)) (k : Z) : option 
   match index_of k univ with Some i => nth i snap None | None => None end.
 
 (* coherence of a pair of snapshots: a cached value is the store's value *)
-Fixpoint coherent (ca st : list (option Z)) : bool :=
+Fixpoint coherent (ca : list (option val)) (st : list val) : bool :=
   match ca, st with
   | [], _ => true
-  | Some v :: ca', Some v' :: st' => (v =? v') && coherent ca' st'
-  | Some _ :: _, _ => false
+  | Some v :: ca', sv :: st' => oz_eqb v sv && coherent ca' st'
+  | Some _ :: _, [] => false
   | None :: ca', _ :: st' => coherent ca' st'
   | None :: ca', [] => coherent ca' []
   end.
@@ -141,13 +156,13 @@ Fixpoint coherent (ca st : list (option Z)) : bool :=
 Definition is_dup (r : res) : bool := match r with RErr EDupKey => true | _ => false end.
 
 (* the existing value handed to an update / upsert callback is what the store held when the operation began *)
-Definition pre_ok (before : option Z) (e : event) : bool :=
+Definition pre_ok (before : val) (e : event) : bool :=
   match e with
-  | EvUpd _ _ pre _ => oz_eqb before (Some pre)
+  | EvUpd _ _ pre _ => oz_eqb before pre
   | EvUpsert _ _ (Some pre) _ => oz_eqb before (Some pre)
   | _ => true end.
 
-Definition step_holds (l : obs_level) (univ : list Z) (pc ps : list (option Z)) (s : sstep) : bool :=
+Definition step_holds (l : obs_level) (univ : list Z) (pc : list (option val)) (ps : list val) (s : sstep) : bool :=
   let o := st_obs s in let k := key_of (st_op s) in
   (* every callback and every cache write of the operation is about the operation's key *)
   forallb (fun e => ev_key e =? k) (ob_events o)
@@ -163,16 +178,17 @@ Definition step_holds (l : obs_level) (univ : list Z) (pc ps : list (option Z)) 
          match ob_res o, l with RNil, ObsAll => match at_key univ (ob_cache o) k with Some _ => false | None => true end | _, _ => true end
      | OAdd _ _ =>           (* an add for a cached key is a duplicate and the store is untouched *)
          match l, at_key univ pc k with
-         | ObsAll, Some _ => is_dup (ob_res o) && no_store_ev (ob_events o) && oz_eqb (at_key univ ps k) (at_key univ (ob_store o) k)
+         | ObsAll, Some _ => (is_dup (ob_res o) || is_ctx (ob_res o))
+                             && no_store_ev (ob_events o) && oz_eqb (at_key univ ps k) (at_key univ (ob_store o) k)
          | _, _ => true end
      | OGet _ =>             (* a get answered without consulting the store returns the store's value *)
          match ob_res o with
-         | ROk v => if existsb is_load (ob_events o) then true else oz_eqb (at_key univ ps k) (Some v)
+         | ROk v => if existsb is_load (ob_events o) then true else oz_eqb (at_key univ ps k) v
          | _ => true end
      | _ => true
      end.
 
-Fixpoint seq_holds (l : obs_level) (univ : list Z) (pc ps : list (option Z)) (steps : list sstep) : bool :=
+Fixpoint seq_holds (l : obs_level) (univ : list Z) (pc : list (option val)) (ps : list val) (steps : list sstep) : bool :=
   match steps with
   | [] => true
   | s :: rest => step_holds l univ pc ps s && seq_holds l univ (ob_cache (st_obs s)) (ob_store (st_obs s)) rest
@@ -183,7 +199,7 @@ Fixpoint seq_holds (l : obs_level) (univ : list Z) (pc ps : list (option Z)) (st
 Lemma oz_eqb_refl x : oz_eqb x x = true.
 Proof. destruct x; cbn; [apply Z.eqb_refl | reflexivity]. Qed.
 
-Lemma at_key_map (univ : list Z) (f : Z -> option Z) k : In k univ -> at_key univ (map f univ) k = f k.
+Lemma at_key_map {A} (univ : list Z) (f : Z -> option A) k : In k univ -> at_key univ (map f univ) k = f k.
 Proof.
   unfold at_key. induction univ as [|a r IH]; intros Hin; [destruct Hin|]. cbn [index_of map].
   destruct (a =? k) eqn:E.
@@ -214,10 +230,10 @@ Qed.
 Lemma existsb_load_project l evs : existsb is_load (project l evs) = existsb is_load evs.
 Proof. destruct l; cbn [project]; apply existsb_filter; intros [] H; try discriminate; reflexivity. Qed.
 
-Lemma coherent_map (ca st : Z -> option Z) univ : (forall k v, ca k = Some v -> st k = Some v) -> coherent (map ca univ) (map st univ) = true.
+Lemma coherent_map (ca : Z -> option val) (st : Z -> val) univ : (forall k v, ca k = Some v -> st k = v) -> coherent (map ca univ) (map st univ) = true.
 Proof.
   intros H. induction univ as [|a r IH]; [reflexivity|]. cbn [map coherent].
-  destruct (ca a) as [v|] eqn:E; [rewrite (H a v E), Z.eqb_refl; exact IH | exact IH].
+  destruct (ca a) as [v|] eqn:E; [rewrite (H a v E), oz_eqb_refl; exact IH | exact IH].
 Qed.
 
 Lemma pre_good_ok sv0 e : pre_good sv0 e -> pre_ok sv0 e = true.
